@@ -1,1 +1,36 @@
-// placeholder
+//! Independent CPR encoder (DO-260B A.1.7.3), airborne (Nb = 17) and surface (Nb = 19, 17 LSBs sent).
+use super::geo::nl;
+
+fn md(a: f64, b: f64) -> f64 {
+    a - b * (a / b).floor()
+}
+
+#[derive(Clone, Copy, Debug)]
+pub struct Encoded {
+    pub yz: u32,   // 17 bits transmitted
+    pub xz: u32,   // 17 bits transmitted
+    pub rlat: f64, // latitude a receiver recovers (full, unambiguous)
+    pub rlon: f64, // longitude a receiver recovers (in [0,360) + zone, i.e. may be >= 180)
+    pub nl_rlat: i32,
+}
+
+/// i = 0 even, 1 odd. lat in [-90,90], lon any (taken modulo 360).
+pub fn encode(lat: f64, lon: f64, i: u32, surface: bool) -> Encoded {
+    let nb: u32 = if surface { 19 } else { 17 };
+    let scale = (1u64 << nb) as f64;
+    let dlat = 360.0 / (60.0 - i as f64);
+    let yz_full = (scale * md(lat, dlat) / dlat + 0.5).floor();
+    let rlat = dlat * (yz_full / scale + (lat / dlat).floor());
+    let n = nl(rlat);
+    let ni = (n - i as i32).max(1) as f64;
+    let dlon = 360.0 / ni;
+    let xz_full = (scale * md(lon, dlon) / dlon + 0.5).floor();
+    let rlon = dlon * (xz_full / scale + (md(lon, 360.0) / dlon).floor());
+    Encoded {
+        yz: (yz_full as u64 % (1 << 17)) as u32,
+        xz: (xz_full as u64 % (1 << 17)) as u32,
+        rlat,
+        rlon,
+        nl_rlat: n,
+    }
+}
